@@ -395,7 +395,10 @@ def queue_release(r, F):
     fl = flow.forward(F, sub, [pr])
     # they must reach an IoTaskCtx aggregate (the completion context), nothing else
     ctxs = [s for f in [sub] + F.descendants(sub) for b in f.blocks for s in b.stmts if s.k == "assign" and s.rv.k == "agg" and (s.rv.j.get("adt") or "").endswith("IoTaskCtx")]
-    r.require(bool(ctxs) and all("piece_refs" in dict(s.rv.agg_fields()) for s in ctxs), sub, "piece_refs handed to the completion context",
+    def _carries_refs(g, s):
+        return any(o.place is not None and "keeper::PieceRef<" in g.local_ty(o.place.local) for _, o in s.rv.agg_fields())
+    ctxs2 = [(g, s) for g in [sub] + F.descendants(sub) for b in g.blocks for s in b.stmts if s.k == "assign" and s.rv.k == "agg" and (s.rv.j.get("adt") or "").endswith("IoTaskCtx")]
+    r.require(bool(ctxs2) and all(_carries_refs(g, s) for g, s in ctxs2), sub, "piece_refs handed to the completion context",
               "every completion context (%d arms) carries the PieceRefs back to the runner" % len(ctxs), "a completion arm drops the PieceRefs inside the io task", ln=sub.lo)
     # (d) in Runner::run the context's piece_refs go to handle_io_complete, which is called after the io task finished
     hprs = [l for l in range(1, hic.argc + 1) if "keeper::PieceRef<" in hic.local_ty(l)]
